@@ -485,3 +485,33 @@ Qed.
 Theorem wdot_layout_invariant (w x y w' x' y' : Rvec) :
   Permutation (zip3 w x y) (zip3 w' x' y') -> wdot w x y = wdot w' x' y'.
 Proof. intros Hp. rewrite !wdot_zip3. apply sumf_perm, Permutation_map, Hp. Qed.
+
+(* packaged statements used by Props.v *)
+Lemma ti_linear (n : nat) (w : @tweight R) (a : R) (x y z : Rvec) :
+  tw_ok n w -> length x = n -> length y = n -> length z = n ->
+  t_inner_v w (vadd (vscal a x) y) z = a * t_inner_v w x z + t_inner_v w y z.
+Proof.
+  intros Hw Hx Hy Hz.
+  rewrite (ti_add_l n w) by (rewrite ?vscal_length; assumption).
+  rewrite (ti_scal_l n w) by assumption. reflexivity.
+Qed.
+Lemma ti_positive (n : nat) (w : @tweight R) (x : Rvec) :
+  tw_ok n w -> length x = n ->
+  0 <= t_inner_v w x x /\ (t_inner_v w x x = 0 -> Forall (fun a => a = 0) x).
+Proof. intros Hw Hx. split; [apply (ti_nonneg n w Hw x Hx) | apply (ti_definite n w Hw x Hx)]. Qed.
+Lemma t_calls_total q blas (w : @tweight R) (p : expo) (x y : Rvec) :
+  x <> [] -> length x = length y ->
+  t_inner w (PFin 2) x y = Ok (t_inner_v w x y) /\
+  t_norm q blas w p x = Ok (t_norm_v w p x) /\
+  t_dist q blas w p x y = Ok (t_norm_v w p (vsub x y)).
+Proof.
+  intros Hne Hl. split; [reflexivity|]. split; [apply t_norm_ok; assumption|].
+  apply t_dist_ok. destruct x as [|a x]; [congruence|]. destruct y as [|b y]; [cbn in Hl; lia|]. cbn. congruence.
+Qed.
+Lemma ti_sym_pkg (n : nat) (w : @tweight R) (x y : Rvec) :
+  tw_ok n w -> length x = n -> length y = n -> t_inner_v w x y = t_inner_v w y x.
+Proof. intros _. apply ti_sym. Qed.
+Lemma ti_cs_pkg (n : nat) (w : @tweight R) (x y : Rvec) :
+  tw_ok n w -> length x = n -> length y = n ->
+  t_inner_v w x y * t_inner_v w x y <= t_inner_v w x x * t_inner_v w y y.
+Proof. intros Hw. apply (ti_cauchy_schwarz n w Hw). Qed.
